@@ -72,3 +72,41 @@ def check(R: Any, monitor: str, wrappers: dict[str, tuple[Any, bool, bool]], onl
                 R.monitor(monitor, ok, where={"kind": "keyword-name-clash", "wrapper": label, "keyword": sorted(kw)[0] if len(kw) == 1 else "all"}, detail=detail, case=case)
 
     asyncio.run(main())
+
+
+def check_ctx_entry_points(R: Any, monitor: str, which: str) -> None:
+    """ctx.stream(generator_fn, **kw) / ctx.spawn(fn, **kw): the keywords belong to the user's function, whatever they are called"""
+    import asyncio
+
+    from haiway import ctx
+
+    names = (*NAMES, "source", "state", "disposables", "logger", "trace_id", "completion", "context", "group")
+
+    def params() -> str:
+        return ", ".join(f"{n}=_ABSENT" for n in names)
+
+    ns: dict[str, Any] = {"_ABSENT": _ABSENT}
+    exec(  # noqa: S102
+        f"async def agen({params()}):\n    got = dict(locals())\n    yield {{k: v for k, v in got.items() if v is not _ABSENT}}\n"
+        f"async def afn({params()}):\n    got = dict(locals())\n    return {{k: v for k, v in got.items() if v is not _ABSENT}}\n",
+        ns,
+    )
+
+    async def main() -> None:
+        for n in names:
+            kw = {n: ["token", n]}
+            case = {"ctx_entry": which, "keyword": n}
+            try:
+                async with ctx.scope("argnames"):
+                    if which == "stream":
+                        got = [item async for item in ctx.stream(ns["agen"], **kw)]
+                        got = got[0] if len(got) == 1 else got
+                    else:
+                        got = await ctx.spawn(ns["afn"], **kw)
+                ok, detail = same(kw, got), f"ctx.{which}(fn, {n}=...): the function received {got!r}"
+            except BaseException as exc:  # noqa: BLE001
+                ok, detail = False, f"ctx.{which}(fn, {n}=...) raised {exc!r} - {n!r} is a parameter of the user's function"
+            R.count("keyword_name_calls")
+            R.monitor(monitor, ok, where={"kind": "keyword-name-clash", "entry": f"ctx.{which}", "keyword": n}, detail=detail, case=case)
+
+    asyncio.run(main())
